@@ -39,6 +39,18 @@ A program is plain data:
   optional 'fallback' func is wrapped instead and is an ordinary function.
   A func with 'alias_of': other is the SAME python function as `other`
   wrapped once more (own rates / prepend values, same parameter list).
+  A func with 'body_fails': {'route': j, 'wraps': m, 'catch_up': u, ...} has a
+  VALID signature: SynthDef.wrap turns its parameters into controls, calls
+  the body, and the body raises after it used j of its parameters and
+  completed m of its own wraps.  The exception passes through u enclosing
+  wrapped functions (which are abandoned at that point: their remaining
+  wraps never happen) and is handled by the next one, which optionally wraps
+  the failing function's 'fallback' and carries on.  The statement leaves two
+  consistent outcomes for the controls created inside the handled call:
+  failed='kept' (they are controls of the definition like any other: slots,
+  units, name entries - the definition is built from what the calls did) or
+  failed='dropped' (everything the abandoned call created is taken back:
+  no slots, no units, no names).  Anything in between is a broken layout.
 """
 
 import struct
@@ -62,21 +74,80 @@ class Slot:
         return {k: getattr(self, k) for k in self.__slots__}
 
 
-def invocation_order(prog):
+def invocation_order(prog, failed='kept'):
+    """function entries in the order in which their controls are created.
+    failed: what happens to the entries created inside a wrap call whose
+    exception was handled by a graph function ('kept' | 'dropped')."""
     out = []
+    funcs = prog['funcs']
 
     def visit(fname):
+        """-> None, or (levels still to pass, fallback) of an exception
+        leaving this function"""
         out.append(fname)
-        for w in prog['funcs'][fname]['wraps']:
-            c = prog['funcs'][w]
+        f = funcs[fname]
+        bf = f.get('body_fails')
+        pending = list(f['wraps'])
+        done = 0
+        while True:
+            if bf and done == min(bf['wraps'], len(f['wraps'])):
+                return (bf['catch_up'], f.get('fallback'))
+            if not pending:
+                return None
+            w = pending.pop(0)
+            done += 1
+            c = funcs[w]
             if c.get('fails'):
                 # a helper that SynthDef.wrap rejects (invalid annotation)
                 # declares nothing; the caller may then wrap a fallback
                 if c.get('fallback'):
-                    visit(c['fallback'])
+                    pending.insert(0, c['fallback'])
+                    done -= 1
                 continue
-            visit(w)
-    visit(prog['top'])
+            mark = len(out)
+            r = visit(w)
+            if r is None:
+                continue
+            if r[0] > 0:
+                return (r[0] - 1, r[1])     # passes through this function
+            # handled here
+            if failed == 'dropped':
+                del out[mark:]
+            if r[1]:
+                pending.insert(0, r[1])
+                done -= 1
+    r = visit(prog['top'])
+    if r is not None:
+        raise ValueError('exception of a failing body leaves the top function')
+    return out
+
+
+def failed_subtree(prog):
+    """names of all function entries below a wrap call whose exception is
+    handled (created, abandoned or never reached)"""
+    funcs = prog['funcs']
+    parent = {w: f['name'] for f in funcs.values() for w in f['wraps']}
+    roots = []
+    for f in funcs.values():
+        bf = f.get('body_fails')
+        if bf:
+            n = f['name']
+            for _ in range(bf['catch_up']):
+                n = parent[n]
+            roots.append(n)
+    out = set()
+
+    def add(n):
+        if n in out:
+            return
+        out.add(n)
+        for w in funcs[n]['wraps']:
+            add(w)
+            fb = funcs[w].get('fallback')
+            if fb:
+                add(fb)
+    for n in roots:
+        add(n)
     return out
 
 
@@ -113,7 +184,7 @@ def param_rate_and_lags(param, entry, size):
     return rate, lags
 
 
-def layout(prog):
+def layout(prog, failed='kept'):
     """Slots are keyed by (function entry, parameter name): the same control
     name may be declared more than once in one definition (a helper wrapped
     twice, a helper reusing a name of the enclosing function); every declared
@@ -125,7 +196,7 @@ def layout(prog):
     cursor = 0
     slots, order, groups = {}, [], []
     defaults = []
-    for fname in invocation_order(prog):
+    for fname in invocation_order(prog, failed):
         f = prog['funcs'][fname]
         ctl = f['params'][f['prepend']:]
         rates = list(f['rates'] or [])
